@@ -1700,6 +1700,28 @@ class wave_function_auto(wave_function):
         return ham_data
 
 
+def _small_det(mat: jax.Array) -> jax.Array:
+    """Determinant of a small excitation block as an explicit polynomial (up to 4 x 4).
+
+    The derivative rule of jnp.linalg.det returns zero for a singular matrix with a vanishing
+    column (e.g. when a row of the walker is exactly zero), which made the force bias and local
+    energy obtained by differentiating the overlap wrong; a polynomial differentiates exactly."""
+    n = mat.shape[-1]
+    if n == 0:
+        return jnp.ones(mat.shape[:-2], mat.dtype)
+    if n == 1:
+        return mat[..., 0, 0]
+    if n == 2:
+        return mat[..., 0, 0] * mat[..., 1, 1] - mat[..., 0, 1] * mat[..., 1, 0]
+    if n <= 4:
+        det = 0.0
+        for i in range(n):
+            minor = jnp.delete(jnp.delete(mat, i, axis=-2), 0, axis=-1)
+            det = det + (-1.0) ** i * mat[..., i, 0] * _small_det(minor)
+        return det
+    return jnp.linalg.det(mat)
+
+
 @dataclass
 class multislater(wave_function_auto):
     """Multislater wave function implemented using the auto class.
@@ -1724,7 +1746,7 @@ class multislater(wave_function_auto):
     def _det_overlap(
         self, green: jax.Array, cre: jax.Array, des: jax.Array
     ) -> jax.Array:
-        return jnp.linalg.det(green[jnp.ix_(cre, des)])
+        return _small_det(green[jnp.ix_(cre, des)])
 
     @partial(jit, static_argnums=0)
     def _green_by_orbital(self, green: jax.Array, ref_occ: jax.Array) -> jax.Array:
